@@ -358,3 +358,105 @@ Proof.
     apply forallb_Forall in Hw. eapply Forall_impl; [|exact Hw].
     intros v Hv r'. apply IHt; assumption.
 Qed.
+
+(* ---------- allocation bound ---------- *)
+Definition esum (vs : list value) : nat := fold_right Nat.add 0%nat (map elems vs).
+Definition nzb (t : ty) : nat := if nz t then 1%nat else 0%nat.
+
+Lemma dec_rep_len : forall (d : decoder) (b : nat) k inp vs r,
+  (forall inp v r, d inp = Some (v, r) -> (length r + elems v + b <= length inp)%nat) ->
+  dec_rep d k inp = Some (vs, r) ->
+  length vs = k /\ (length r + esum vs + k * b <= length inp)%nat.
+Proof.
+  intros d b k. induction k as [|k IH]; intros inp vs r Hd H.
+  - cbn [dec_rep] in H. inv H. cbn. lia.
+  - cbn [dec_rep] in H. destruct (d inp) as [[v r1]|] eqn:E1; [|discriminate].
+    destruct (dec_rep d k r1) as [[vs' r2]|] eqn:E2; inv H.
+    apply Hd in E1. apply IH in E2; [|exact Hd]. destruct E2 as [E2 E3].
+    unfold esum in *. cbn [length map fold_right]. lia.
+Qed.
+
+Lemma dec_all_len : forall ts inp vs r,
+  Forall (fun t => forall inp v r, decode t inp = Some (v, r) -> (length r + elems v + nzb t <= length inp)%nat) ts ->
+  dec_all (map decode ts) inp = Some (vs, r) ->
+  (length r + esum vs + (if existsb nz ts then 1 else 0) <= length inp)%nat.
+Proof.
+  intros ts inp vs r H. revert inp vs r. induction H as [|t ts Ht _ IH]; intros inp vs r Hd.
+  - cbn [map dec_all] in Hd. inv Hd. cbn. lia.
+  - cbn [map dec_all] in Hd. destruct (decode t inp) as [[v r1]|] eqn:E1; [|discriminate].
+    destruct (dec_all (map decode ts) r1) as [[vs' r2]|] eqn:E2; inv Hd.
+    apply Ht in E1. apply IH in E2. unfold esum, nzb in *. cbn [map fold_right existsb].
+    destruct (nz t); destruct (existsb nz ts); cbn [orb]; lia.
+Qed.
+
+Lemma nth_error_map_inv : forall {A B} (f : A -> B) l n y,
+  nth_error (map f l) n = Some y -> exists x, nth_error l n = Some x /\ y = f x.
+Proof.
+  intros A B f l. induction l as [|a l IH]; intros [|n] y H; cbn in H; try discriminate.
+  - inv H. exists a. split; reflexivity.
+  - apply IH in H. exact H.
+Qed.
+
+Theorem decode_elems : forall t, ty_ok t = true ->
+  forall inp v r, decode t inp = Some (v, r) -> (length r + elems v + nzb t <= length inp)%nat.
+Proof.
+  unfold nzb.
+  induction t using ty_ind2; intros Hok inp v r Hd; cbn [decode] in Hd; cbn [nz].
+  - destruct inp; inv Hd. cbn. lia.
+  - destruct (dec_u b inp) as [[n r0]|] eqn:E; inv Hd. apply dec_varint_len in E. cbn [elems]. lia.
+  - destruct (dec_u b inp) as [[n r0]|] eqn:E; inv Hd. apply dec_varint_len in E. cbn [elems]. lia.
+  - destruct inp as [|[|[p|p|]] inp']; inv Hd; cbn; lia.
+  - destruct (take_n 8 inp) as [[bs r0]|] eqn:E; inv Hd. apply take_n_len in E. cbn [elems]. lia.
+  - destruct (dec_lenbytes inp) as [[bs r0]|] eqn:E; [|discriminate].
+    destruct (utf8_valid bs); inv Hd. apply dec_lenbytes_len in E. cbn [elems]. lia.
+  - destruct (dec_lenbytes inp) as [[bs r0]|] eqn:E; inv Hd. apply dec_lenbytes_len in E. cbn [elems]. lia.
+  - destruct (dec_lenbytes inp) as [[bs r0]|] eqn:E; [|discriminate].
+    destruct (N.of_nat (length bs) =? n); inv Hd. apply dec_lenbytes_len in E. cbn [elems]. lia.
+  - unfold dec_dur in Hd. destruct (dec_u 64 inp) as [[s r0]|] eqn:E; [|discriminate].
+    destruct (dec_u 32 r0) as [[n r1]|] eqn:E2; [|discriminate].
+    destruct (U64MAX <? s + n / NANOS); inv Hd.
+    apply dec_varint_len in E. apply dec_varint_len in E2. cbn [elems]. lia.
+  - unfold dec_dur in Hd. destruct (dec_u 64 inp) as [[s r0]|] eqn:E; [|discriminate].
+    destruct (dec_u 32 r0) as [[n r1]|] eqn:E2; [|discriminate].
+    destruct (I64MAX <? s + n / NANOS); inv Hd.
+    apply dec_varint_len in E. apply dec_varint_len in E2. cbn [elems]. lia.
+  - (* Seq *)
+    cbn [ty_ok] in Hok. apply andb_true_iff in Hok as [Hnz Hok].
+    destruct (dec_u 64 inp) as [[len r0]|] eqn:E; [|discriminate].
+    destruct (N.of_nat (length r0) <? len); [discriminate|].
+    destruct (dec_rep (decode t) (N.to_nat len) r0) as [[vs r1]|] eqn:E2; inv Hd.
+    apply dec_varint_len in E.
+    apply (dec_rep_len (decode t) 1) in E2.
+    + destruct E2 as [E2 E3]. cbn [elems]. fold (esum vs). lia.
+    + intros inp' v' r' H'. specialize (IHt Hok inp' v' r' H'). rewrite Hnz in IHt. exact IHt.
+  - (* Opt *)
+    cbn [ty_ok] in Hok.
+    destruct inp as [|[|[p|p|]] inp']; try discriminate.
+    + inv Hd. cbn. lia.
+    + destruct (decode t inp') as [[v' r']|] eqn:E; inv Hd. apply IHt in E; [|exact Hok]. cbn [elems length]. lia.
+  - (* Tup *)
+    cbn [ty_ok] in Hok.
+    destruct (dec_all (map decode ts) inp) as [[vs r0]|] eqn:E; inv Hd.
+    apply dec_all_len in E; [cbn [elems]; fold (esum vs); exact E|].
+    apply forallb_Forall in Hok. rewrite Forall_forall in *. intros t Hin. apply H; auto.
+  - (* Enum *)
+    cbn [ty_ok] in Hok. apply andb_true_iff in Hok as [_ Hok].
+    destruct (dec_u 32 inp) as [[idx r0]|] eqn:E; [|discriminate].
+    destruct (idx <? N.of_nat (length ts)); [|discriminate].
+    destruct (nth_error (map decode ts) (N.to_nat idx)) as [d|] eqn:E2; [|discriminate].
+    destruct (d r0) as [[v' r']|] eqn:E3; inv Hd.
+    apply nth_error_map_inv in E2. destruct E2 as [t [Et ->]].
+    apply nth_error_In in Et. apply forallb_Forall in Hok. rewrite Forall_forall in *.
+    apply (H t Et (Hok t Et)) in E3. apply dec_varint_len in E. cbn [elems]. lia.
+  - (* Arr *)
+    cbn [ty_ok] in Hok.
+    destruct (dec_rep (decode t) n inp) as [[vs r0]|] eqn:E; inv Hd.
+    apply (dec_rep_len (decode t) (if nz t then 1 else 0)%nat) in E; [|intros; apply IHt; assumption].
+    destruct E as [E1 E2]. cbn [elems]. fold (esum vs).
+    destruct n; cbn [Nat.eqb negb andb]; [lia|]. destruct (nz t); lia.
+Qed.
+
+Corollary decode_elems_le : forall t, ty_ok t = true ->
+  forall inp v r, decode t inp = Some (v, r) ->
+  (length r <= length inp)%nat /\ (elems v <= length inp - length r)%nat.
+Proof. intros t Hok inp v r H. apply decode_elems in H; [|exact Hok]. lia. Qed.
